@@ -171,6 +171,49 @@ def build_cuboid_partition(c):
 
 
 # ------------------------------------------------------------------ family 2: Cylinder / CylinderSegment partitions
+def near_part_surface(p_cyl, part, m):
+    """is the point (r, phi_deg, z) within m of the closed surface of the segment part=(ra, rb, pa, pb, za, zb)?"""
+    r, ph, z = p_cyl
+    ra, rb, pa, pb, za, zb = part
+    full = pb - pa >= 360.0
+    if not (ra - m <= r <= rb + m and za - m <= z <= zb + m):
+        return False
+    d_a = math.radians((ph - pa + 180.0) % 360.0 - 180.0)
+    d_b = math.radians((ph - pb + 180.0) % 360.0 - 180.0)
+    if not full:
+        inside_phi = ((ph - pa) % 360.0) <= (pb - pa)
+        near_phi = min(abs(d_a), abs(d_b)) * r <= m
+        if not (inside_phi or near_phi):
+            return False
+    else:
+        near_phi = False
+    near_rz = abs(r - ra) <= m and ra > 0 or abs(r - rb) <= m or abs(z - za) <= m or abs(z - zb) <= m
+    on_axis_edge = ra == 0 and not full and r <= m
+    return bool(near_rz or (near_phi and not full) or on_axis_edge)
+
+
+def special_cyl_observers(rng, re_, pe, ze, margin, n=3):
+    """observers whose cylinder coordinates coincide with one, two or three coordinates of faces / cuts
+    (z = z_k, phi = phi_j or phi_j + 180, r = r_i or 0) but which lie OFF the closed surface of every part"""
+    parts = [(re_[i], re_[i + 1], pe[j], pe[j + 1], ze[k], ze[k + 1])
+             for i in range(len(re_) - 1) for j in range(len(pe) - 1) for k in range(len(ze) - 1)]
+    r2, h = re_[-1], ze[-1] - ze[0]
+    out = []
+    for _ in range(60):
+        if len(out) >= n:
+            break
+        zs, ps, rs = rng.random() < 0.6, rng.random() < 0.6, rng.random() < 0.5
+        if not (zs or ps or rs):
+            continue
+        z = rng.choice(ze) if zs else rnd(rng, -1.5, 1.5) * max(h, r2)
+        ph = (rng.choice(pe) + rng.choice([0.0, 0.0, 180.0])) if ps else rnd(rng, -180, 180, 3)
+        r = rng.choice(list(re_) + [0.0]) if rs else rnd(rng, 0.05, 2.5) * r2
+        if any(near_part_surface((r, ph, z), part, margin) for part in parts):
+            continue
+        out.append([r * math.cos(math.radians(ph)), r * math.sin(math.radians(ph)), z])
+    return out
+
+
 def gen_cylinder_partition(rng):
     """whole: Cylinder (r1 = 0, full angle), or a CylinderSegment (hollow and/or partial angle);
     parts: CylinderSegments from radial x angular x axial cuts"""
@@ -222,24 +265,8 @@ def gen_cylinder_partition(rng):
         if not okp:
             continue
         obs.append([r * math.cos(math.radians(ph)), r * math.sin(math.radians(ph)), z])
-    if rng.random() < 0.4:
-        # on the extension of a face / cut surface but outside the body (off every surface): plane z = z_k beyond
-        # r2 (or in the bore), cylinder r = r_i above / below, half plane phi = phi_j beyond r2, the axis above
-        for _ in range(2):
-            k = rng.choice(["zplane", "rcyl", "phiplane", "axis"])
-            ph = rnd(rng, -180, 180, 3)
-            if k == "zplane":
-                z, r = rng.choice(ze), r2 * (1 + rnd(rng, 0.1, 1.5))
-                if r1 > 0 and rng.random() < 0.3:
-                    r = r1 * rnd(rng, 0.1, 0.9)
-            elif k == "rcyl":
-                r = rng.choice([x for x in re_ if x > 0])
-                z = (h / 2) * (1 + rnd(rng, 0.1, 1.5)) * rng.choice([-1, 1])
-            elif k == "phiplane":
-                ph, r, z = rng.choice(pe), r2 * (1 + rnd(rng, 0.1, 1.5)), rnd(rng, -1, 1) * h
-            else:
-                r, ph, z = 0.0, 0.0, (h / 2) * (1 + rnd(rng, 0.1, 1.5)) * rng.choice([-1, 1])
-            obs.append([r * math.cos(math.radians(ph)), r * math.sin(math.radians(ph)), z])
+    if rng.random() < 0.5:
+        obs += special_cyl_observers(rng, re_, pe, ze, margin)
     return {"family": "cylinder_partition", "kind": kind, "r": re_, "phi": pe, "z": ze, "pol": gen_pol(rng),
             "pose": gen_pose(rng), "obs": obs, "mode": rng.choice(["sumup", "collection", "loop"])}
 
@@ -271,6 +298,15 @@ CUBE_F = [(0, 2, 1), (0, 3, 2), (4, 5, 6), (4, 6, 7), (0, 1, 5), (0, 5, 4), (2, 
 # 5 tetrahedra (central one + 4 corners) and 6 tetrahedra (around the diagonal 0-6)
 TETRA5 = [(0, 1, 3, 4), (1, 2, 3, 6), (1, 4, 5, 6), (3, 4, 6, 7), (1, 3, 4, 6)]
 TETRA6 = [(0, 1, 2, 6), (0, 2, 3, 6), (0, 3, 7, 6), (0, 7, 4, 6), (0, 4, 5, 6), (0, 5, 1, 6)]
+
+
+import itertools
+PERMS4 = list(itertools.permutations(range(4)))
+
+
+def tet_order(c, k):
+    """vertex order of the k-th tetrahedron of a case: any of the 24 orders (both chiralities), fixed by c['salt']"""
+    return list(PERMS4[(c.get("salt", 0) + 5 * k) % 24])
 
 
 def gen_cuboid_repr(rng):
@@ -306,7 +342,7 @@ def gen_cuboid_repr(rng):
         rng.shuffle(perm)
         flips = [rng.randrange(3) for _ in range(12)]     # cyclic rotations keep the orientation
     return {"family": "cuboid_repr", "rep": rep, "dim": dim, "pol": gen_pol(rng), "pose": gen_pose(rng), "obs": obs,
-            "perm": perm, "flips": flips, "mode": rng.choice(["sumup", "collection", "loop"])}
+            "perm": perm, "flips": flips, "salt": rng.randrange(24), "mode": rng.choice(["sumup", "collection", "loop"])}
 
 
 def cube_vertices(dim):
@@ -329,7 +365,8 @@ def build_cuboid_repr(c):
         other = [magpy.misc.Triangle(polarization=pol, vertices=V[list(f)], **wp) for f in CUBE_F]
         return whole, other, ("H",)
     tets = TETRA5 if rep == "tetra5" else TETRA6
-    other = [magpy.magnet.Tetrahedron(polarization=pol, vertices=V[list(t)], **wp) for t in tets]
+    other = [magpy.magnet.Tetrahedron(polarization=pol, vertices=V[list(t)][tet_order(c, k)], **wp)
+             for k, t in enumerate(tets)]
     return whole, other, FIELDS
 
 
@@ -432,7 +469,7 @@ def gen_mesh_convert(rng):
     npath = rng.choice([1, 1, 1, 2, 3]) if conv == "to_TriangleCollection" else 1
     path = [[rnd(rng, -1, 1) for _ in range(3)] for _ in range(npath - 1)]
     return {"family": "mesh_convert", "conv": conv, "points": pts, "dim": dim, "pol": gen_pol(rng), "pose": pose,
-            "path": path, "obs": obs, "mode": rng.choice(["sumup", "collection", "loop"])}
+            "path": path, "obs": obs, "salt": rng.randrange(24), "mode": rng.choice(["sumup", "collection", "loop"])}
 
 
 # ------------------------------------------------------------------ family 7: Cuboid = slabs in mixed representations
@@ -476,7 +513,8 @@ def gen_mixed_partition(rng):
             continue
         obs.append(p)
     return {"family": "mixed_partition", "dim": dim, "axis": ax, "edges": edges, "reps": reps, "pol": gen_pol(rng),
-            "pose": gen_pose(rng), "obs": obs, "mode": rng.choice(["sumup", "collection", "loop"])}
+            "pose": gen_pose(rng), "obs": obs, "salt": rng.randrange(24),
+            "mode": rng.choice(["sumup", "collection", "loop"])}
 
 
 def _slab_vertices(lo, hi):
@@ -518,8 +556,8 @@ def build_mixed_partition(c):
             v24, f24 = _mesh24(V)
             parts.append(magpy.magnet.TriangularMesh(polarization=pol, vertices=v24, faces=f24, **wp))
         else:
-            for t in (TETRA5 if rep == "tetra5" else TETRA6):
-                parts.append(magpy.magnet.Tetrahedron(polarization=pol, vertices=V[list(t)], **wp))
+            for kk, t in enumerate(TETRA5 if rep == "tetra5" else TETRA6):
+                parts.append(magpy.magnet.Tetrahedron(polarization=pol, vertices=V[list(t)][tet_order(c, k + kk)], **wp))
     return whole, parts
 
 
@@ -555,8 +593,8 @@ def build_mesh_convert(c):
     elif conv == "from_ConvexHull":
         # the same body as a fan of tetrahedra from an interior point over the hull faces
         ctr = pts[np.unique(base.faces)].mean(axis=0)
-        tets = [magpy.magnet.Tetrahedron(polarization=pol, vertices=np.vstack([ctr[None], tri]), **wp)
-                for tri in base.mesh]
+        tets = [magpy.magnet.Tetrahedron(polarization=pol, vertices=np.vstack([ctr[None], tri])[tet_order(c, k)], **wp)
+                for k, tri in enumerate(base.mesh)]
         comps.append(("from_ConvexHull=tetrahedra", base, tets, FIELDS))
     elif conv == "to_TriangleCollection":
         if c["path"]:
@@ -729,7 +767,7 @@ def eval_polyline_circle(c, obs):
                                     f"(bound {bound[k, i] / scale:.3g}) at local observer {c['obs'][i]}"})
             continue
         # (b) second-order convergence: error ratio per doubling near 4 while above the rounding floor
-        for k in range(len(NGON) - 1):
+        for k in range(2, len(NGON) - 1):      # from 256 -> 512 on: higher-order terms are negligible there
             ok = errs[k + 1] > 1e-9 * scale
             ratio = errs[k][ok] / errs[k + 1][ok]
             if ratio.size and (ratio.min() < 3.0 or ratio.max() > 5.5):
